@@ -162,7 +162,7 @@ func (vt *Model) ich(ps int) {
 		line[i] = line[i-column(ps)]
 	}
 	for i := 0; i < ps; i += 1 {
-		if int(col)+i >= (vt.width() - 1) {
+		if int(col)+i > (vt.width() - 1) {
 			break
 		}
 		line[col+column(i)] = cell{
